@@ -68,11 +68,30 @@ def then_form_r2(ctx, r2, rr, hop, ops_i):
         lv = P.val_operand(pf, (sb, si), srv["ops"][k], pf.body)
         lens = [x for x in common.walk(lv) if x[0] == "call" and isinstance(x[3], str) and generic_path(x[3]).endswith("Vec::len")]
         return len(lens) == 1 and set(ctx.roots(lens[0][4][0])) == {P_(acc, ops_i)}
+    def parent_value(v):
+        """a captured value, seen in the acceptor (e.g. `last_index = operations.len() - 1` computed before the closure)"""
+        k = upvar_index(v, cf.path)
+        site = P.closure_site(cf.path)
+        if k is None or site is None:
+            return None
+        pf, sb, si, srv = site
+        return P.val_operand(pf, (sb, si), srv["ops"][k], pf.body)
+
+    def is_len_parent(v):
+        lens = [x for x in common.walk(v) if x[0] == "call" and isinstance(x[3], str) and generic_path(x[3]).endswith("Vec::len")]
+        rs = set(ctx.roots(v))
+        return len(lens) == 1 and len(rs) == 1 and list(rs)[0].startswith("C:std::vec::Vec::len@%s:" % acc.path) and set(ctx.roots(lens[0][4][0])) == {P_(acc, ops_i)}
     cond = strip(tov[4][0])
     ok = False
     if cond[0] == "binop" and cond[1] == "Eq":
         a, b_ = strip(cond[2]), strip(cond[3])
         for x, y in ((a, b_), (b_, a)):
+            # index == <captured len - 1>
+            py = parent_value(y)
+            if is_index(x) and py is not None:
+                py = strip(py)
+                if py[0] == "binop" and py[1] in ("Sub", "SubWithOverflow") and is_len_parent(strip(py[2])) and strip(py[3]) == ("const", "int", 1):
+                    ok = True
             if x[0] == "binop" and x[1] in ("Add", "AddWithOverflow") and is_len(y):
                 p, q = strip(x[2]), strip(x[3])
                 if (is_index(p) and q == ("const", "int", 1)) or (is_index(q) and p == ("const", "int", 1)):
@@ -359,6 +378,26 @@ def _run(ctx):
         elif c[0] == "cmp" and c[1] == "is_empty" and set(ctx.roots(c[2][0])) == {P_(acc, ops_i)}:
             empties.append((g, True))
     if not empties:
+        # `let Some(last) = operations.last() else { return Err(..) }`: an empty route has no last element
+        for c in [x for b_ in msg_blocks for x in common.control_conditions(P, acc, b_)]:
+            cd = c["cond"]
+            if cd[0] == "discr" and c["allowed"] == ["Some"] and cd[1][0] == "call" and isinstance(cd[1][3], str) and \
+                    re.search(r"slice::<impl \[T\]>::(last|first)$|^(core|std)::slice::(last|first)$", generic_path(cd[1][3]) if False else cd[1][3]) and \
+                    set(ctx.roots(cd[1][4][0])) == {P_(acc, ops_i)}:
+                t_ = body.blocks[c["sw"]]["term"]
+                some_t = [tb for v_, tb in t_["arms"] if common.variant_name(P, c["ty"], v_) == "Some"] if c.get("ty") else []
+                others = [tb for tb in [tb for _, tb in t_["arms"]] + [t_["otherwise"]] if tb not in some_t and body.blocks[tb]["term"]["k"] != "unreachable"]
+                if not some_t:
+                    some_t = [t_["otherwise"]]
+                    others = [tb for _, tb in t_["arms"] if body.blocks[tb]["term"]["k"] != "unreachable"]
+                if len(others) == 1 and common.fail_edge_only_errors(P, acc, (c["sw"], others[0]), msg_blocks)[0] and \
+                        all(body.edge_dominates((c["sw"], some_t[0]), b_) for b_ in msg_blocks):
+                    empties = "last"
+                    r4.site("operations.last() is None => Err at %s dominates %d message site(s)" % (common.span_of_block_term(acc, c["sw"]), len(msg_blocks)))
+                    break
+    if empties == "last":
+        pass
+    elif not empties:
         r4.fail("C13.R4:no-empty-guard", acc.path, acc.span, "empty routes are not rejected by the acceptor")
     else:
         g, when_true = empties[0]
